@@ -307,6 +307,9 @@ def schnorrsig_verify(sig, msg, pubkey, context=None):
     assert len(msg) == 32
     assert len(pubkey) == 64
     sec = ec_pubkey_serialize(pubkey)
+    if sec[0] != 0x02:
+        # libsecp256k1 would verify against the odd point
+        raise ValueError("Not an x-only public key")
     return _key.verify_schnorr(sec[1:33], sig, msg)
 
 
